@@ -92,6 +92,7 @@ class Policy:
         self.counts: dict[str, int] = {}
         self.applied: list = []
         self.stream_log: list = []  # (flow id, "request"|"response", chunk in, chunk(s) out) per stream-callable call
+        self.poke_log: list = []  # (t, hook, attr, connection was open, assignment raised)
         self.by_hook: dict[str, list] = {}
         for r in self.rules:
             self.by_hook.setdefault(r["hook"], []).append(r)
@@ -152,6 +153,24 @@ class Policy:
                 m.stream = val
         elif act == "edit":
             self._edit(f, r)
+        elif act == "poke_server_conn":
+            # an addon trying to re-point a server connection: must raise while the connection is open
+            sc_ = f.server_conn
+            from mitmproxy.connection import ConnectionState
+            was_open = sc_.state is ConnectionState.OPEN
+            for attr, val in (("address", ("evil.test", 6666)), ("via", ("http", ("evil.test", 3128)))):
+                before = getattr(sc_, attr)
+                try:
+                    setattr(sc_, attr, val)
+                    raised = False
+                    if was_open:
+                        # undo through the backdoor so the run can go on; the oracle has its witness
+                        sc_.__dict__[attr] = before
+                    else:
+                        setattr(sc_, attr, before)
+                except RuntimeError:
+                    raised = True
+                self.poke_log.append((self.w.loop.time(), name, attr, was_open, raised))
         elif act == "intercept":
             f.intercept()
             then = r.get("then", "resume")
@@ -223,7 +242,7 @@ class Policy:
             elif k == "status" and which == "response":
                 m.status_code = e["value"]
             elif k == "via":
-                f.server_conn.via = tuple(e["value"]) if e["value"] else None
+                f.server_conn.via = (e["value"][0], tuple(e["value"][1])) if e["value"] else None
 
 
 # ---------------------------------------------------------------------------
@@ -317,6 +336,16 @@ async def origin_h1(world, obs, conn, spec):
             if m is not None:
                 consumed = m.end
                 progressed = True
+                if m.method.upper() == b"CONNECT" and spec.get("accept_connect", True):
+                    # behave like an HTTP proxy: open the tunnel, then serve the tunnelled requests on this pipe
+                    conn.tunnel_to = m.target
+                    obs.origin_log.append((world.loop.time(), conn.id, "connect", m.target.decode("latin1")))
+                    st = spec.get("connect_status", 200)
+                    conn.feed(b"HTTP/1.1 %d %s\r\n\r\n" % (st, b"Connection established" if st == 200 else b"Refused"))
+                    if st != 200:
+                        conn.send_eof()
+                        return
+                    continue
                 tm = TOK_RE.search(m.target)
                 tok = int(tm.group(1)) if tm else -1
                 r = replies.get(str(tok))
